@@ -125,6 +125,18 @@ pub fn run(tier: &str, seed: u64) -> i32 {
             if let Some(j) = rest.find('"') {
                 declared.insert(rest[..j].to_string());
             }
+            // further names the same handler answers to
+            if let Some(k) = l.find("aliases = [") {
+                let list = &l[k + 11..];
+                if let Some(e) = list.find(']') {
+                    for a in list[..e].split(',') {
+                        let a = a.trim().trim_matches('"');
+                        if !a.is_empty() {
+                            declared.insert(a.to_string());
+                        }
+                    }
+                }
+            }
         }
     }
     let tset: BTreeSet<String> = table.iter().cloned().collect();
@@ -132,11 +144,8 @@ pub fn run(tier: &str, seed: u64) -> i32 {
         errors.push(format!("method table {:?} differs from the #[method] attributes {:?}", tset.difference(&declared).collect::<Vec<_>>(), declared.difference(&tset).collect::<Vec<_>>()));
     }
     let protected: BTreeSet<String> = brc20_prog::verif::INDEXER_METHODS.iter().cloned().collect();
-    for p in &protected {
-        if !tset.contains(p) {
-            errors.push(format!("protected method {} is not registered", p));
-        }
-    }
+    // (a protected name that no handler answers to is harmless; it is reported, not judged)
+    let protected_but_not_served: Vec<String> = protected.iter().filter(|p| !tset.contains(*p)).cloned().collect();
     let (mut srv, w) = match prepare(true) {
         Ok(x) => x,
         Err(e) => {
@@ -154,10 +163,13 @@ pub fn run(tier: &str, seed: u64) -> i32 {
     let reqs_all = all_requests(&Ctx::of(&w));
     // one default request per method (the first variant)
     let mut reqs: Vec<Req> = Vec::new();
+    // served names this harness has no request for (a name added later, an alias): driven below with the
+    // parameter shapes of every known method
+    let mut unknown_names: Vec<String> = Vec::new();
     for m in &table {
         match reqs_all.iter().find(|r| &r.method == m) {
             Some(r) => reqs.push(r.clone()),
-            None => errors.push(format!("no default request for method {}", m)),
+            None => unknown_names.push(m.clone()),
         }
     }
     let insc_ids: Vec<String> = vec!["i1e0".into(), "i2e0".into(), "req-deploy".into(), "req-call".into(), "req-call2".into(), "req-t0".into(), "req-t1".into(), "req-dep".into(), "req-wd".into()];
@@ -269,6 +281,60 @@ pub fn run(tier: &str, seed: u64) -> i32 {
             vs.push(mk("refused-with-auth-disabled", r.method.clone(), format!("{} without credentials on a server with authentication disabled: {}", r.method, v)));
         }
     }
+    // served names without a request of their own: each is called with the parameters of every known method, without
+    // and with credentials. One that is served without credentials and changes the state, or that changes the
+    // state with credentials and is not on the protected list, breaks the completeness clause.
+    let mut unknown_report: Vec<Value> = Vec::new();
+    for u in &unknown_names {
+        let mut accepted_shapes = 0u64;
+        let mut firsts: BTreeSet<String> = BTreeSet::new();
+        for k in reqs_all.iter().filter(|k| firsts.insert(k.method.clone())) {
+            for (cname, header, good) in [("no header", None, false), ("correct", Some(basic(USER, PASS)), true)] {
+                evals += 1;
+                let r = Req { method: u.clone(), label: k.label.clone(), params: k.params.clone() };
+                let (status, text) = match http(&srv.s.addr, header.as_deref(), &body_call(&r, 7)) {
+                    Ok(x) => x,
+                    Err(e) => {
+                        errors.push(format!("transport: {}", e));
+                        continue;
+                    }
+                };
+                let parsed: Value = serde_json::from_str(&text).unwrap_or(Value::Null);
+                let what = format!("{} (a served name outside the documented table) with the parameters of {} and {}", u, k.method, cname);
+                if parsed.get("result").is_some() {
+                    accepted_shapes += 1;
+                }
+                let d = srv.digest(&insc_ids);
+                if d != baseline {
+                    if !good {
+                        vs.push(mk("state-changed-without-credentials", what.clone(), format!("{}: HTTP {} body {}; {}", what, status, trunc(&text, 300), first_diff(&baseline, &d))));
+                    } else {
+                        mutating.insert(u.clone());
+                        if !protected.contains(u) {
+                            vs.push(mk("mutating-method-not-protected", what.clone(), format!("{} changed the state and is not on the protected list: {}", u, first_diff(&baseline, &d))));
+                        }
+                    }
+                    srv.call(Some(&srv.good.clone()), "brc20_clearCaches", json!([]));
+                    if srv.digest(&insc_ids) != baseline {
+                        restarts += 1;
+                        match prepare(true) {
+                            Ok((s2, _)) => srv = s2,
+                            Err(e) => {
+                                errors.push(e);
+                                break;
+                            }
+                        }
+                    }
+                } else if !good && protected.contains(u) && !is_unauth(&parsed) {
+                    vs.push(mk("not-refused", what.clone(), format!("{}: HTTP {} body {}", what, status, trunc(&text, 300))));
+                }
+            }
+        }
+        if accepted_shapes == 0 {
+            errors.push(format!("served method {} accepts none of the known parameter shapes: it cannot be classified", u));
+        }
+        unknown_report.push(json!({"name": u, "parameter_shapes_accepted": accepted_shapes, "protected": protected.contains(u), "mutating": mutating.contains(u)}));
+    }
     // every write method of the interface must have shown itself mutating (vacuity of the completeness check)
     for m in ["brc20_mine", "brc20_deploy", "brc20_call", "brc20_deposit", "brc20_withdraw", "brc20_transact", "brc20_finaliseBlock"] {
         if !mutating.contains(m) {
@@ -284,6 +350,7 @@ pub fn run(tier: &str, seed: u64) -> i32 {
         "evaluations": evals, "distinct_nontrivial": refused,
         "rule": "every registered method (from the dispatch table, cross-checked with the #[method] attributes) x {call, notification, first / middle / last element of a batch among permitted calls, batch of only this method, after / among / before batch elements that are not requests at all} x {no header, wrong user, wrong password, malformed, not base64, lower-case scheme, bearer, correct} on a server started with start() and authentication enabled, plus every method without credentials on a server with authentication disabled; after each refused request the state digest (public reads) must be unchanged; a permitted request that changes the digest marks its method as mutating, which must then be on the protected list. distinct_nontrivial = requests that had to be refused",
         "samples": samples, "methods": table.len(), "protected": protected.len(), "must_be_refused": refused, "must_be_served": served, "methods_observed_mutating": mutating.iter().collect::<Vec<_>>(), "server_restarts": restarts,
+        "served_names_outside_the_documented_table": unknown_report, "protected_names_no_handler_answers_to": protected_but_not_served,
         "exhaustive": true, "machinery_errors": errors,
     });
     ev.assumptions = vec!["jsonrpsee does not execute notifications at all: for an authorised notification both 'executed' and 'ignored' are accepted".into(), "the state digest is made of public reads; a mutation invisible to every read method would not be seen".into()];
